@@ -143,7 +143,7 @@ def edit_chains(ctx):
         t2["events"][i]["out"]["fragment"] = "f1" if t2["events"][i]["out"]["fragment"] != "f1" else NONE
         t2["events"] = t2["events"][:i + 1]
         fal.append(t2)
-    if fal:
+    if fal and ctx.conforming() and not rej2:
         acc3, _ = tracecheck.validate(wd, "TraceUrl", fal, constants=dict(K, Strict=True))
         if acc3:
             raise common.MachineryError("binding self-test: %d falsified edit chains accepted by TraceUrl" % acc3)
